@@ -1,7 +1,9 @@
 // mwinwake replays the schedules of MpxWinWake.tla: a Send that waits for send window is held at the verif gate between
-// its load of the window and its sleep (send.wait) while a raw peer sends window updates; the controller releases the
-// sender and the updates in the model's order.  Conformance: after every step the sender is where the model says (at the
-// gate with the model's window, asleep, or returned); verdict: a sender never stays asleep on a window that is enough.
+// its load of the window and its sleep (send.wait) while a raw peer sends window updates and, in half of the schedules, a
+// second goroutine calls Send on the same channel; the controller releases senders and updates in the model's order.
+// Conformance: after every step each sender is where the model says (queued behind the other, at the gate with the
+// model's window, asleep, or returned); verdict: a sender never stays asleep on a window that is enough, and never two
+// senders are inside the wait at once.
 package main
 
 import (
@@ -11,6 +13,9 @@ import (
 	"fmt"
 	"net"
 	"os"
+	"runtime"
+	"strconv"
+	"strings"
 	"sync"
 	"time"
 
@@ -28,9 +33,10 @@ import (
 )
 
 type Step struct {
-	Who    string `json:"who"`
+	Who    int    `json:"who"` // 1, 2: sender; 0: the peer
 	Op     string `json:"op"`
-	Snd    string `json:"snd"`
+	Snd1   string `json:"snd1"`
+	Snd2   string `json:"snd2"`
 	Window int    `json:"window"`
 }
 
@@ -38,8 +44,10 @@ type Rec struct {
 	W      int    `json:"w"`
 	Size   int    `json:"size"`
 	Deltas []int  `json:"deltas"`
+	Two    bool   `json:"two"`
 	Sched  []Step `json:"sched"`
-	Final  string `json:"final"`
+	Final1 string `json:"final1"`
+	Final2 string `json:"final2"`
 }
 
 type Outcome struct {
@@ -54,7 +62,16 @@ var (
 	settle      = tscale.D(30 * time.Millisecond)
 )
 
+func goid() int64 {
+	var buf [64]byte
+	n := runtime.Stack(buf[:], false)
+	f := strings.Fields(string(buf[:n]))
+	id, _ := strconv.ParseInt(f[1], 10, 64)
+	return id
+}
+
 type gateArrival struct {
+	g      int64
 	window int64
 	rel    chan struct{}
 }
@@ -82,14 +99,18 @@ func (c *ctl) trace(ev string, id bin.Bin128, a, b int64) {
 		return
 	}
 	rel := make(chan struct{})
-	c.gate <- gateArrival{a, rel}
+	c.gate <- gateArrival{goid(), a, rel}
 	<-rel
 }
 
 func schedString(r *Rec) string {
 	s := fmt.Sprintf("W=%d size=%d deltas=%v:", r.W, r.Size, r.Deltas)
 	for _, st := range r.Sched {
-		s += " " + st.Who + "." + st.Op + "->" + st.Snd
+		who := "P"
+		if st.Who > 0 {
+			who = fmt.Sprint("S", st.Who)
+		}
+		s += fmt.Sprintf(" %s.%s->%s/%s", who, st.Op, st.Snd1, st.Snd2)
 	}
 	return s
 }
@@ -114,6 +135,15 @@ func accept(ln net.Listener) (*peer.Peer, error) {
 		return nil, err
 	}
 	return p, p.WriteFrame(resp.Unwrap().Raw())
+}
+
+type sender struct {
+	g        int64
+	started  chan int64
+	resc     chan status.Status
+	parked   *gateArrival
+	returned bool
+	payload  []byte
 }
 
 func runSchedule(rec *Rec, c *ctl, report func(sig, detail string)) {
@@ -169,7 +199,7 @@ func runSchedule(rec *Rec, c *ctl, report func(sig, detail string)) {
 		c.mu.Lock()
 		c.active = false
 		c.mu.Unlock()
-		// let a sender parked at the gate go, then end everything
+		// let senders parked at the gate go, then end everything
 		for {
 			select {
 			case g := <-c.gate:
@@ -218,96 +248,78 @@ func runSchedule(rec *Rec, c *ctl, report func(sig, detail string)) {
 	c.mu.Lock()
 	c.active, c.id = true, xid
 	c.mu.Unlock()
-	payload := bytes.Repeat([]byte{9}, rec.Size)
-	resc := make(chan status.Status, 1)
-	var parked *gateArrival
-	returned := false
-	// waitSnd brings the observation of the sender up to date and compares it with the model
-	expect := func(k int, s Step) bool {
-		switch s.Snd {
-		case "idle":
-			return true
-		case "gate":
-			if parked == nil {
-				select {
-				case g := <-c.gate:
-					parked = &g
-				case st := <-resc:
-					returned = true
-					report("returned-early", fmt.Sprintf("step %d (%s.%s): Send returned %v, the model says it waits at the gate (window %d, size %d)", k, s.Who, s.Op, st, s.Window, rec.Size))
-					return false
-				case <-time.After(stepTimeout):
-					report("hang:no-gate", fmt.Sprintf("step %d (%s.%s): the sender neither reached the gate nor returned within %v; the model says it loaded window %d again", k, s.Who, s.Op, stepTimeout, s.Window))
-					return false
-				}
-				// the window it loaded on this arrival (an update applied later does not change what it saw)
-				if int(parked.window) != s.Window {
-					report("window", fmt.Sprintf("step %d (%s.%s): the sender loaded window %d, the model says %d", k, s.Who, s.Op, parked.window, s.Window))
-					return false
-				}
-			}
-		case "asleep":
-			select {
-			case g := <-c.gate:
-				parked = &g
-				report("not-asleep", fmt.Sprintf("step %d (%s.%s): the sender is back at the gate (window %d), the model says it sleeps", k, s.Who, s.Op, g.window))
-				return false
-			case st := <-resc:
-				returned = true
-				report("returned-early", fmt.Sprintf("step %d (%s.%s): Send returned %v, the model says it sleeps", k, s.Who, s.Op, st))
-				return false
-			case <-time.After(settle):
-			}
-		case "done":
-			if returned {
-				return true
-			}
-			select {
-			case st := <-resc:
-				returned = true
-				if !st.OK() {
-					report("status:"+string(st.Code), fmt.Sprintf("step %d (%s.%s): Send returned %v", k, s.Who, s.Op, st))
-					return false
-				}
-			case g := <-c.gate:
-				parked = &g
-				report("not-done", fmt.Sprintf("step %d (%s.%s): the sender went back to the gate with window %d, the model says the window is enough", k, s.Who, s.Op, g.window))
-				return false
-			case <-time.After(stepTimeout):
-				report("hang:asleep", fmt.Sprintf("step %d (%s.%s): Send did not return within %v although the window updates applied so far are enough for it (initial window %d, size %d): lost wake-up", k, s.Who, s.Op, stepTimeout, rec.W, rec.Size))
-				return false
+	snd := [3]*sender{nil,
+		{started: make(chan int64, 1), resc: make(chan status.Status, 1), payload: bytes.Repeat([]byte{9}, rec.Size)},
+		{started: make(chan int64, 1), resc: make(chan status.Status, 1), payload: []byte{5}}}
+	defer func() {
+		for i := 1; i <= 2; i++ {
+			if snd[i].parked != nil {
+				close(snd[i].parked.rel)
+				snd[i].parked = nil
 			}
 		}
-		return true
+	}()
+	// pump takes one event of the senders (a gate arrival or a return) or times out
+	pump := func(d time.Duration) bool {
+		select {
+		case g := <-c.gate:
+			for i := 1; i <= 2; i++ {
+				if snd[i].g == g.g {
+					gg := g
+					snd[i].parked = &gg
+					return true
+				}
+			}
+			close(g.rel) // not one of ours
+			return true
+		case st := <-snd[1].resc:
+			snd[1].returned = true
+			if !st.OK() {
+				report("status:"+string(st.Code), fmt.Sprintf("Send of sender 1 returned %v", st))
+			}
+			return true
+		case st := <-snd[2].resc:
+			snd[2].returned = true
+			if !st.OK() {
+				report("status:"+string(st.Code), fmt.Sprintf("Send of sender 2 returned %v", st))
+			}
+			return true
+		case <-time.After(d):
+			return false
+		}
 	}
 	for k, s := range rec.Sched {
+		hadParked := [3]bool{false, snd[1].parked != nil, snd[2].parked != nil}
 		switch {
-		case s.Who == "S" && s.Op == "start":
+		case s.Who > 0 && s.Op == "start":
+			me := snd[s.Who]
 			go func() {
+				me.started <- goid()
 				defer func() {
 					if e := recover(); e != nil {
-						resc <- status.Errorf("panic: %v", e)
+						me.resc <- status.Errorf("panic: %v", e)
 					}
 				}()
-				resc <- x.Send(async.TimeoutContext(tscale.D(20*time.Second)), payload)
+				me.resc <- x.Send(async.TimeoutContext(tscale.D(20*time.Second)), me.payload)
 			}()
-		case s.Who == "S" && s.Op == "go":
-			if parked == nil {
+			me.g = <-me.started
+		case s.Who > 0 && s.Op == "go":
+			me := snd[s.Who]
+			if me.parked == nil {
 				report("harness", "release without a parked sender")
 				return
 			}
-			close(parked.rel)
-			parked = nil
-		case s.Who == "P":
-			var delta int
+			close(me.parked.rel)
+			me.parked = nil
+			hadParked[s.Who] = false
+		case s.Who == 0:
 			n := 0
 			for j := 0; j <= k; j++ {
-				if rec.Sched[j].Who == "P" {
+				if rec.Sched[j].Who == 0 {
 					n++
 				}
 			}
-			delta = rec.Deltas[n-1]
-			if err := p.WriteFrame(peer.Window(xid, int32(delta))); err != nil {
+			if err := p.WriteFrame(peer.Window(xid, int32(rec.Deltas[n-1]))); err != nil {
 				report("harness", "window write: "+err.Error())
 				return
 			}
@@ -318,18 +330,87 @@ func runSchedule(rec *Rec, c *ctl, report func(sig, detail string)) {
 				return
 			}
 		}
-		if !expect(k, s) {
-			return
+		want := [3]string{"", s.Snd1, s.Snd2}
+		at := func(i int) string {
+			switch {
+			case snd[i].returned:
+				return "done"
+			case snd[i].parked != nil:
+				return "gate"
+			}
+			return "inside-or-waiting"
+		}
+		where := fmt.Sprintf("step %d (%d.%s)", k, s.Who, s.Op)
+		// first what has to happen ...
+		deadline := time.Now().Add(stepTimeout)
+		for {
+			pending := false
+			for i := 1; i <= 2; i++ {
+				if (want[i] == "gate" && snd[i].parked == nil && !snd[i].returned) || (want[i] == "done" && !snd[i].returned && snd[i].parked == nil) {
+					pending = true
+				}
+			}
+			if !pending || !pump(time.Until(deadline)) {
+				break
+			}
+		}
+		for i := 1; i <= 2; i++ {
+			switch want[i] {
+			case "gate":
+				if at(i) != "gate" {
+					sig := "hang:no-gate"
+					if at(i) == "done" {
+						sig = "returned-early"
+					}
+					report(sig, fmt.Sprintf("%s: sender %d is %s, the model says it is at the gate (window %d)", where, i, at(i), s.Window))
+					return
+				}
+				if !hadParked[i] && int(snd[i].parked.window) != s.Window {
+					report("window", fmt.Sprintf("%s: sender %d loaded window %d, the model says %d", where, i, snd[i].parked.window, s.Window))
+					return
+				}
+			case "done":
+				if at(i) != "done" {
+					sig := "hang:asleep"
+					if at(i) == "gate" {
+						sig = "not-done"
+					}
+					report(sig, fmt.Sprintf("%s: Send of sender %d has not returned within %v although the window updates applied so far are enough for it (initial window %d, size %d)", where, i, stepTimeout, rec.W, len(snd[i].payload)))
+					return
+				}
+			}
+		}
+		// ... then what must not happen: a queued or sleeping sender stays where it is
+		quiet := false
+		for i := 1; i <= 2; i++ {
+			quiet = quiet || want[i] == "queued" || want[i] == "asleep"
+		}
+		if quiet {
+			for pump(settle) {
+			}
+			for i := 1; i <= 2; i++ {
+				if (want[i] == "queued" || want[i] == "asleep") && at(i) != "inside-or-waiting" {
+					what := "sleeps"
+					if want[i] == "queued" {
+						what = "waits for the send mutex behind the other sender"
+					}
+					report("not-"+want[i], fmt.Sprintf("%s: sender %d is %s, the model says it %s", where, i, at(i), what))
+					return
+				}
+			}
 		}
 	}
-	if rec.Final == "done" {
-		// the message is on the wire, once
+	// the messages of the senders that are done are on the wire, once each
+	for i := 1; i <= 2; i++ {
+		if (i == 1 && rec.Final1 != "done") || (i == 2 && rec.Final2 != "done") {
+			continue
+		}
 		ok := false
 		for deadline := time.Now().Add(stepTimeout); time.Now().Before(deadline) && !ok; time.Sleep(time.Millisecond) {
 			pmu.Lock()
 			n := 0
 			for _, f := range frames {
-				if f.ID == xid && f.Code == pmpx.Code_ChannelData && bytes.Equal(f.Data, payload) {
+				if f.ID == xid && f.Code == pmpx.Code_ChannelData && bytes.Equal(f.Data, snd[i].payload) {
 					n++
 				}
 			}
@@ -337,7 +418,7 @@ func runSchedule(rec *Rec, c *ctl, report func(sig, detail string)) {
 			ok = n == 1
 		}
 		if !ok {
-			report("frames", "the peer did not receive the message exactly once after Send returned OK")
+			report("frames", fmt.Sprintf("the peer did not receive the message of sender %d exactly once after its Send returned OK", i))
 		}
 	}
 	for _, e := range mpxh.Panics(lg.Take()) {
